@@ -10,6 +10,7 @@ import (
 	"runtime"
 	"strings"
 	"testing"
+	"time"
 
 	"go.uber.org/zap"
 	"go.uber.org/zap/exp/zapslog"
@@ -150,12 +151,34 @@ func c15SugarFronts(s *zap.SugaredLogger, k int, lvl zapcore.Level) []c15Front {
 	}
 }
 
+// c15SlogHelper is a logging helper in the style slog documents for wrappers:
+// it records the PC of its caller and calls the handler directly.
+//
+//go:noinline
+func c15SlogHelper(h slog.Handler, lvl slog.Level) {
+	var pcs [1]uintptr
+	runtime.Callers(2, pcs[:]) // skip Callers and this helper
+	r := slog.NewRecord(time.Unix(0, 0), lvl, "m", pcs[0])
+	r.AddAttrs(slog.Int("a", 1))
+	_ = h.Handle(context.Background(), r)
+}
+
+// c15SlogHelper2 nests one more helper frame.
+//
+//go:noinline
+func c15SlogHelper2(h slog.Handler, lvl slog.Level) {
+	var pcs [1]uintptr
+	runtime.Callers(2, pcs[:])
+	func() {
+		r := slog.NewRecord(time.Unix(0, 0), lvl, "m", pcs[0])
+		_ = h.Handle(context.Background(), r)
+	}()
+}
+
 func propC15(t *rapid.T) {
 	core, logs := observer.New(zapcore.Level(-128))
-	stackSet := genC05Enab(t, []*zap.AtomicLevel{func() *zap.AtomicLevel {
-		a := zap.NewAtomicLevelAt(zapcore.Level(rapid.IntRange(-1, 6).Draw(t, "stackAt")))
-		return &a
-	}()})
+	stackAtomic := zap.NewAtomicLevelAt(zapcore.Level(rapid.IntRange(-1, 6).Draw(t, "stackAt")))
+	stackSet := genC05Enab(t, []*zap.AtomicLevel{&stackAtomic})
 	term := new(int64)
 	skip := rapid.IntRange(0, 4).Draw(t, "callerSkip")
 	skipEarly := rapid.IntRange(0, skip).Draw(t, "skipAppliedBeforeConversions")
@@ -210,6 +233,10 @@ func propC15(t *rapid.T) {
 			}
 		}
 	}
+	if rapid.IntRange(0, 2).Draw(t, "stackLevelChangesAfterDerivation") == 0 {
+		// the stack-trace threshold is a LevelEnabler: a dynamic one is consulted at every call
+		stackAtomic.SetLevel(zapcore.Level(rapid.IntRange(-1, 6).Draw(t, "newStackAt")))
+	}
 	depth := rapid.SampledFrom([]int{0, 1, 10, 50, 63, 64, 65, 200, 1000}).Draw(t, "recursionDepth")
 	lvl := zapcore.Level(rapid.OneOf(rapid.Int8Range(-1, 5), rapid.SampledFrom([]int8{-2, 6, 7})).Draw(t, "level"))
 	var fronts []c15Front
@@ -225,6 +252,10 @@ func propC15(t *rapid.T) {
 			{"slog.Log(Warn)", zapcore.WarnLevel, func() c15Site { x := here(0); h.Log(context.Background(), slog.LevelWarn, "m"); return x }},
 			{"slog.DebugContext", zapcore.DebugLevel, func() c15Site { x := here(0); h.DebugContext(context.Background(), "m"); return x }},
 			{"slog.With.Info", zapcore.InfoLevel, func() c15Site { x := here(0); h.With("a", 1).WithGroup("g").Info("m", "b", 2); return x }},
+			// the wrapping pattern slog documents: a helper builds the Record with ITS caller's PC and hands it to the handler
+			{"slog.Wrapper(Error)", zapcore.ErrorLevel, func() c15Site { x := here(0); c15SlogHelper(h.Handler(), slog.LevelError); return x }},
+			{"slog.Wrapper(Info)", zapcore.InfoLevel, func() c15Site { x := here(0); c15SlogHelper(h.Handler(), slog.LevelInfo); return x }},
+			{"slog.Wrapper2(Warn)", zapcore.WarnLevel, func() c15Site { x := here(0); c15SlogHelper2(h.Handler(), slog.LevelWarn); return x }},
 		}
 	} else if sg != nil {
 		fronts = c15SugarFronts(sg.WithOptions(zap.AddCallerSkip(skip-skipEarly)), skip, lvl)
@@ -265,10 +296,11 @@ func propC15(t *rapid.T) {
 	if useSlog {
 		wantStack = map[zapcore.Level]slog.Level{zapcore.DebugLevel: slog.LevelDebug, zapcore.InfoLevel: slog.LevelInfo, zapcore.WarnLevel: slog.LevelWarn, zapcore.ErrorLevel: slog.LevelError}[fr.lvl] >= slogStackAt
 	}
+	wrapperFront := strings.HasPrefix(fr.name, "slog.Wrapper")
 	if (e.Stack != "") != wantStack {
 		t.Fatalf("stack trace present=%v, configured for this level: %v\n%s", e.Stack != "", wantStack, desc)
 	}
-	if wantStack {
+	if wantStack && !wrapperFront { // (for hand-built records only the recorded call site is claimed, not where the trace starts)
 		ws := strings.Join(want.stack, "\n")
 		if e.Stack != ws {
 			gl, wl := strings.Split(e.Stack, "\n"), strings.Split(ws, "\n")
